@@ -94,6 +94,15 @@ type Op struct {
 	Enable   bool   `json:"enable,omitempty"`
 	Beacon   bool   `json:"beacon,omitempty"`
 	Mode     int    `json:"mode,omitempty"`
+	Evs      []HookEv `json:"evs,omitempty"` // hookmulti: the SwapToNative events of ONE EVM transaction, in order
+}
+
+// HookEv is one swapToNative call inside an EVM transaction: holder A of the ERC20 form of Min swaps Amt to receiver B.
+type HookEv struct {
+	A   int    `json:"a,omitempty"`
+	B   int    `json:"b,omitempty"`
+	Min Name   `json:"min"`
+	Amt string `json:"amt"`
 }
 
 type Params struct {
@@ -288,6 +297,9 @@ func exec(h History) lib.Case {
 		if op.Min != (Name{}) {
 			addName(op.Min)
 		}
+		for _, ev := range op.Evs {
+			addName(ev.Min)
+		}
 	}
 	for i := 0; i < h.NActors; i++ {
 		w.accts = append(w.accts, i)
@@ -299,6 +311,12 @@ func exec(h History) lib.Case {
 		if op.K == "hook" && op.A >= 200 && !seenH[op.A] {
 			seenH[op.A] = true
 			w.holders = append(w.holders, op.A)
+		}
+		for _, ev := range op.Evs {
+			if ev.A >= 200 && !seenH[ev.A] {
+				seenH[ev.A] = true
+				w.holders = append(w.holders, ev.A)
+			}
 		}
 		if op.K == "toerc20" && op.B >= 200 && !seenH[op.B] {
 			seenH[op.B] = true
@@ -331,6 +349,8 @@ func exec(h History) lib.Case {
 			var out lib.Outcome
 			if op.K == "hook" {
 				out = w.runHook(op)
+			} else if op.K == "hookmulti" {
+				out = w.runHookMulti(op)
 			} else {
 				out = e.Deliver(msg)
 			}
@@ -428,6 +448,13 @@ func (w *world) build(op Op) (string, sdk.Msg) {
 			impl = common.BytesToAddress([]byte{0xc0, byte(op.Nm)}).Hex()
 		}
 		return lib.App("UpgradeErc20", z(op.A), z(op.Nm)), &v1.MsgUpgradeERC20{Authority: w.addrStr(op.A), Implementation: impl}
+	case "hookmulti":
+		var evs []string
+		for _, ev := range op.Evs {
+			_, cid := w.contractOf(ev.Min)
+			evs = append(evs, lib.Pair(z(cid), z(ev.A), z(ev.B), lib.ZB(bigOf(ev.Amt))))
+		}
+		return lib.App("HookMulti", lib.L(evs...)), nil
 	case "hook":
 		// the contract is the one the token of this min unit is bound to NOW (0: none)
 		_, cid := w.contractOf(op.Min)
@@ -476,6 +503,42 @@ func (w *world) runHook(op Op) lib.Outcome {
 			{Address: *caddr, Topics: []common.Hash{ev.ID}, Data: data},
 		}}
 		return w.k.Hooks().PostTxProcessing(ctx, nil, receipt)
+	})
+}
+
+// runHookMulti plays ONE EVM transaction in which swapToNative is called several times (a batching /
+// forwarding contract; possibly on different bound contracts): every call burns the holder's ERC20 balance
+// and emits its SwapToNative event; the receipt carries all events, interleaved with foreign logs, and the
+// token keeper's PostTxProcessing hook runs once on it. Any failure reverts the whole transaction.
+func (w *world) runHookMulti(op Op) lib.Outcome {
+	return w.e.Try(func(ctx sdk.Context) error {
+		abi := contracts.ERC20TokenContract.ABI
+		ev := abi.Events[contracts.EventSwapToNative]
+		transfer := abi.Events["Transfer"]
+		var logs []*ethtypes.Log
+		for i, e := range op.Evs {
+			amt := bigOf(e.Amt)
+			caddr, _ := w.contractOf(e.Min)
+			if caddr == nil {
+				return fmt.Errorf("erc20 contract not found")
+			}
+			from := w.eth(e.A)
+			if w.evm.Balance(*caddr, from).Cmp(amt) < 0 {
+				return fmt.Errorf("execution reverted: burn amount exceeds balance")
+			}
+			w.evm.contracts[*caddr][from] = new(big.Int).Sub(w.evm.Balance(*caddr, from), amt)
+			data, err := ev.Inputs.Pack(from, w.addrStr(e.B), amt)
+			if err != nil {
+				return err
+			}
+			// the burn's own Transfer log (3 topics, ignored), on odd positions a SwapToNative log of an unbound contract (ignored)
+			logs = append(logs, &ethtypes.Log{Address: *caddr, Topics: []common.Hash{transfer.ID, common.BytesToHash(from.Bytes()), {}}, Data: common.LeftPadBytes(amt.Bytes(), 32)})
+			if i%2 == 1 {
+				logs = append(logs, &ethtypes.Log{Address: common.HexToAddress("0x00000000000000000000000000000000000000aa"), Topics: []common.Hash{ev.ID}, Data: data})
+			}
+			logs = append(logs, &ethtypes.Log{Address: *caddr, Topics: []common.Hash{ev.ID}, Data: data})
+		}
+		return w.k.Hooks().PostTxProcessing(ctx, nil, &ethtypes.Receipt{Logs: logs})
 	})
 }
 
